@@ -282,7 +282,7 @@ def run_entry(entry, n, seed, acc, tier):
 
 
 def shards(tier, seed):
-    return [{'entry': e, 'i': i, 'n': 250 if tier == 'thorough' else 16} for i, e in enumerate(genfaulty.entries(exclude_ack=False))]
+    return [{'entry': e, 'i': i, 'n': 250 if tier == 'thorough' else 32} for i, e in enumerate(genfaulty.entries(exclude_ack=False))]
 
 
 def run_shard(spec, seed, tier):
